@@ -16,6 +16,9 @@ SVC = "c19.TestService"
 # contract of google::protobuf::RpcChannel::CallMethod; it is only made in cases whose header says obs=1, and
 # what the code then does (entry erased, closure neither run nor deleted) is counted, never reported
 OBS_KEY_NULLRESP = "obs-null-response-closure-dropped"
+# proposed finding (findings/C19.md): a service completes a deferred request after the connection went down;
+# RpcServer::onConnection destroyed the channel, the done callback holds the raw `this`
+UAF_KEY = "done-after-down-use-after-free"
 
 LINE = re.compile(r"^(ok|rejected) ev=(\S+) next=(-?\d+) outs=(\S+) pend=(\S+)$")
 FINAL = re.compile(r"^final dtor=(\S+) leaked=(\S+) respleak=(\S+)$")
@@ -81,7 +84,10 @@ def oracle(case, lines):
     """The property text evaluated on the implementation's trace.  Returns a list of
     (op index, key, message); empty = the property holds on this history."""
     bad = []
-    svc_on = "svc=1" in case.header
+    hdr = case.header.split()
+    svc_on = "svc=1" in hdr or "svc=2" in hdr      # the channel has the service table
+    server_owned = "svc=1" in hdr                 # made by RpcServer::onConnection: destroyed on DOWN
+    down = False
     obs_mode = "obs=1" in case.header.split()
     if len(lines) < len(case.ops) + 3:
         return [(len(lines) - 1, "truncated", "implementation produced %d lines for %d ops" % (len(lines), len(case.ops)))]
@@ -136,6 +142,45 @@ def oracle(case, lines):
         if status == "rejected":
             if evs or outs != prev_outs or nxt != prev_next:
                 bad.append((idx, "rejected-op-acted", "an op outside the preconditions changed something"))
+            prev_outs, prev_next = outs, nxt
+            continue
+        # the connection is DOWN: nothing may be sent into it, no closure may run, nothing may be delivered
+        if down:
+            for e in evs:
+                if e.split(":")[0] in ("send", "reply", "run", "dispatch", "burst"):
+                    bad.append((idx, "acted-after-down", "op %r after the connection went down: %s" % (op, e)))
+                if e.startswith("uaf:"):
+                    bad.append((idx, UAF_KEY, "done callback %s ran on a destroyed channel" % e[4:]))
+            if k == "DONE" and int(t[1]) in deferred:
+                del deferred[int(t[1])]
+            if k in ("CALL", "CALLA", "R", "BURST"):
+                if server_owned:
+                    bad.append((idx, "acted-after-down", "a call was made on a destroyed channel: %r" % op))
+            elif outs != prev_outs:
+                bad.append((idx, "outstanding-changed", "op %r changed the outstanding calls %s -> %s" % (op, sorted(prev_outs), sorted(outs))))
+            if k in ("CALL", "CALLA"):
+                flags[t[1]] = (t[2] == "1", t[3] == "1")
+            if k == "F":
+                flags[t[2]] = (t[3] == "1", t[4] == "1")
+            prev_outs, prev_next = outs, nxt
+            continue
+        if k == "DOWN":
+            down = True
+            if [e for e in evs if e.split(":")[0] not in ("del", "drop")]:
+                bad.append((idx, "acted-after-down", "the connection going down produced %s" % evs))
+            if server_owned:
+                # ~RpcChannel: every outstanding call's response object and closure deleted, nothing run
+                if outs:
+                    bad.append((idx, "not-erased", "channel destroyed but calls still outstanding: %s" % sorted(outs)))
+                want = []
+                for i in sorted(prev_outs):
+                    tg = tag_of_id.get(i)
+                    r_, d_ = prev_outs[i]
+                    want += (["del:%s" % tg] if r_ else []) + (["drop:%s" % tg] if d_ else [])
+                if sorted(evs) != sorted(want):
+                    bad.append((idx, "dtor-mismatch", "destroying the channel must delete exactly what is outstanding: want %s, got %s" % (want, evs)))
+            elif evs or outs != prev_outs:
+                bad.append((idx, "acted-after-down", "a user-owned channel must not change when its connection goes down: %s" % evs))
             prev_outs, prev_next = outs, nxt
             continue
         # which response (if any) is delivered by this op, and to which id
@@ -344,7 +389,13 @@ def gen_permutations(rng, tier):
                     flagsv[j] = rng.choice([(1, 0), (0, 0)])
                 calls = [call(c, flagsv[c - 1][0], flagsv[c - 1][1], rng.choice(["Echo", "Defer"])) for c in range(1, n + 1)]
                 yield vlib.Case("permd%d_%d" % (n, n_id), "svc=%d" % rng.randrange(2), calls + decorate(rng, list(range(1, n + 1)), perm), "perm-decorated")
-    count = 1500 if tier == "quick" else 20000
+    if tier != "quick":
+        # thorough: ALL permutations of the responses to 6 and 7 outstanding calls as well
+        for n in (6, 7):
+            for perm in itertools.permutations(range(1, n + 1)):
+                n_id += 1
+                yield vlib.Case("perm%d_%d" % (n, n_id), "svc=0", [call(c) for c in range(1, n + 1)] + [resp(i, plain=True) for i in perm], "perm-plain")
+    count = 1500 if tier == "quick" else 60000
     for j in range(count):
         n = rng.randint(6, 8)
         order = list(range(1, n + 1))
@@ -409,7 +460,21 @@ def gen_threads(rng, tier):
     for il in pick:
         n += 1
         yield vlib.Case("il3_%d" % n, "svc=%d" % rng.randrange(2), with_responses(rng, il, 0.25), "threads-3")
-    count = 1500 if tier == "quick" else 20000
+    if tier != "quick":
+        # thorough: all interleavings of two threads making two calls each (924), responses aimed at ids in flight
+        for il in interleavings([thread_prog(1, [1, 2]), thread_prog(2, [3, 4])]):
+            n += 1
+            yield vlib.Case("il22_%d" % n, "svc=0", with_responses(rng, il, 0.25), "threads-2x2-all")
+        # ... and sampled interleavings of four threads
+        for j in range(5000):
+            progs = [thread_prog(t, [t]) for t in (1, 2, 3, 4)]
+            il = []
+            while any(progs):
+                p = rng.choice([p for p in progs if p])
+                il.append(p.pop(0))
+            n += 1
+            yield vlib.Case("il4_%d" % n, "svc=%d" % rng.choice([0, 0, 2]), with_responses(rng, il, 0.2), "threads-4")
+    count = 1500 if tier == "quick" else 60000
     for j in range(count):
         nt = rng.randint(1, 3)
         progs, tag = [], 0
@@ -445,8 +510,8 @@ def gen_burst(rng, tier):
     n = 0
     reps = 12 if tier == "quick" else 100
     for rep in range(reps):
-        for nt in (1, 2, 3):
-            for per in (1, 4, 25):
+        for nt in ((1, 2, 3) if tier == "quick" else (1, 2, 3, 6)):
+            for per in ((1, 4, 25) if tier == "quick" else (1, 4, 25, 60)):
                 n += 1
                 pre = [call(c) for c in range(1, rng.randint(0, 2) + 1)]
                 base = len(pre)
@@ -476,7 +541,7 @@ def gen_server(rng, tier):
                     n += 1
                     ops = ["REQ %d %s %s %s" % (rng.choice(RIDS), s, m, p), "DONE 0 %02x" % n, "DONE 0 00"]
                     yield vlib.Case("srv%d" % n, "svc=%d" % on, ops, "server-enumerated")
-    count = 2000 if tier == "quick" else 30000
+    count = 2000 if tier == "quick" else 80000
     for j in range(count):
         ops, ntok, open_toks = [], 0, []
         for _ in range(rng.randint(2, 10)):
@@ -517,6 +582,82 @@ def gen_null_response(rng, tier):
         ops += [resp(i, plain=True) for i in order]
         yield vlib.Case("nullresp%d" % j, "svc=0 obs=1", ops, "obs-null-response")
         yield vlib.Case("nullrej%d" % j, "svc=0", ops, "null-response-rejected")
+
+
+def gen_down(rng, tier):
+    """the connection goes DOWN in the middle of a history.
+    svc=1 (channel owned by RpcServer::onConnection: destroyed): outstanding calls are deleted, later calls /
+    frames are rejected; every deferred request is completed BEFORE the DOWN or never (tag down-server-safe);
+    svc=2 / svc=0 (user-owned): calls go on registering, nothing reaches the wire, deferred requests completed
+    after the DOWN have their reply dropped; helper threads straddle the DOWN at every micro-step boundary;
+    down-done-after: svc=1 and a deferred request completed AFTER the DOWN (proposed finding, see findings/C19.md)."""
+    n = 0
+    # a helper thread's CallMethod with the DOWN at each of its micro-step boundaries (user-owned channel)
+    for mode in (0, 2):
+        for pos in range(4):
+            ops = ["F 1 1 1 1 Echo 0001", "R 1", "S 1"]
+            ops.insert(pos, "DOWN")
+            n += 1
+            yield vlib.Case("downmicro%d" % n, "svc=%d" % mode, [call(9)] + ops + ["RESP 1 p=V01", call(10), "DOWN"], "down-user-owned")
+    count = 300 if tier == "quick" else 15000
+    for j in range(count):
+        mode = rng.choice([1, 1, 2, 2, 0])
+        ops, ntok, open_toks, ncall, helpers = [], 0, [], 0, {}
+        pre = rng.randint(1, 7)
+        for _ in range(pre):
+            x = rng.random()
+            if x < 0.35:
+                ncall += 1
+                ops.append(call(ncall, 1, rng.choice([1, 1, 0]), rng.choice(["Echo", "Defer"])))
+            elif x < 0.65 and mode != 0:
+                m = rng.choice(["Echo", "Defer", "Defer", "Nope"])
+                ops.append("REQ %d %s %s %s" % (rng.choice(RIDS), SVC, m, rng.choice(["V41", "V-", "X0a"])))
+                if m in ("Echo", "Defer") and not ops[-1].endswith("X0a"):
+                    if m == "Defer":
+                        open_toks.append(ntok)
+                    ntok += 1
+            elif x < 0.8 and open_toks:
+                ops.append("DONE %d %02x" % (open_toks.pop(rng.randrange(len(open_toks))), rng.randrange(256)))
+            elif x < 0.9 and ncall:
+                ops.append(resp(rng.randint(1, ncall), rng))
+            elif mode != 1 and len(helpers) < 2:
+                t = len(helpers) + 1
+                ncall += 1
+                helpers[t] = ["R %d" % t, "S %d" % t]
+                ops.append("F %d %d 1 1 Echo %s" % (t, ncall, req_of(ncall)))
+            for t in list(helpers):
+                if helpers[t] and rng.random() < 0.4:
+                    ops.append(helpers[t].pop(0))
+        if mode == 1 and rng.random() < 0.5:
+            while open_toks:                             # the service answers everything before the peer goes away
+                ops.append("DONE %d %02x" % (open_toks.pop(0), rng.randrange(256)))
+        ops.append("DOWN")
+        for _ in range(rng.randint(1, 5)):
+            x = rng.random()
+            if x < 0.3:
+                ncall += 1
+                ops.append(call(ncall))
+            elif x < 0.45:
+                ops.append(resp(rng.randint(1, max(1, ncall)), rng))
+            elif x < 0.55:
+                ops.append("REQ 5 %s Echo V41" % SVC)
+            elif x < 0.6:
+                ops.append("DOWN")
+            elif x < 0.8 and open_toks and mode != 1:
+                ops.append("DONE %d %02x" % (open_toks.pop(0), rng.randrange(256)))
+            else:
+                for t in list(helpers):
+                    if helpers[t]:
+                        ops.append(helpers[t].pop(0))
+                        break
+        yield vlib.Case("down%d" % j, "svc=%d" % mode, ops, "down-server-safe" if mode == 1 else "down-user-owned")
+    for j in range(4 if tier == "quick" else 40):
+        k = rng.randint(1, 3)
+        ops = ["REQ %d %s Defer V%02x" % (10 + i, SVC, i) for i in range(k)]
+        late = rng.randrange(k)
+        ops += ["DONE %d 01" % i for i in range(k) if i != late and rng.random() < 0.5]
+        ops += ["DOWN", "DONE %d 02" % late]
+        yield vlib.Case("downuaf%d" % j, "svc=1", ops, "down-done-after")
 
 
 def load_cases(path, tagname, prefix=""):
@@ -566,6 +707,10 @@ def nontrivial(case, lines):
             ev.add("burst")
         if k == "CALLA":
             ev.add("immediate")
+        if k == "DOWN" and m.group(1) == "ok":
+            ev.add("down")
+        if "drop" in kinds:
+            ev.add("destroyed-with-outstanding")
         if "leak" in kinds:
             ev.add("leak")
         for e in evs:
@@ -602,7 +747,7 @@ def run(chk, replay=None):
         cases = []
         for f in sorted(glob.glob(os.path.join(vlib.ROOT, "corpus", "C19", "*.case"))):
             cases += load_cases(f, "corpus", prefix="corpus_" + os.path.basename(f)[:-5] + "_")
-        for g in (gen_immediate, gen_null_response, gen_permutations, gen_threads, gen_burst, gen_server):
+        for g in (gen_immediate, gen_null_response, gen_permutations, gen_threads, gen_burst, gen_server, gen_down):
             cases += list(g(rng, tier))
     hist = {}
     for c in cases:
@@ -622,7 +767,22 @@ def run(chk, replay=None):
         chk.cov["evaluations"] += 1
         if c.cid in crashes:
             rc, se, partial = crashes[c.cid]
-            oracle_bad.append((c, len(partial), "crash", "implementation crashed (rc=%s) after %d ops: %s" % (rc, max(0, len(partial) - 1), crash_head(se))))
+            partial = [x for x in partial if x.strip()]
+            j = max(0, len(partial) - 1)                 # the op that was executing
+            key, what = "crash", "implementation crashed"
+            if j < len(c.ops) and c.ops[j].split()[0] == "DONE" and "DOWN" in c.ops[:j] and "svc=1" in c.header.split():
+                key, what = UAF_KEY, ("the service ran the done callback of a deferred request after the connection went down: "
+                                      "RpcChannel::doneCallback executed on the channel RpcServer::onConnection had destroyed")
+            item = (c, len(partial), key, "%s (rc=%s) in op %d %r: %s" % (what, rc, j, c.ops[j] if j < len(c.ops) else "end", crash_head(se)))
+            if any(k["key"] == key for k in known):
+                known_bad.append(item)
+            else:
+                oracle_bad.append(item)
+            if key == UAF_KEY:
+                # the model predicts exactly this: its line for the op is `uaf:<k>`
+                lm = model_out.get(c.cid)
+                if lm is None or len(lm) <= j + 1 or "uaf:" not in lm[j + 1] or partial[:j + 1] != lm[:j + 1]:
+                    corr_bad.append((c, j + 1, "impl crashed in %r, model says %r" % (c.ops[j], lm[j + 1] if lm and len(lm) > j + 1 else None)))
             continue
         li, lm = impl_out.get(c.cid), model_out.get(c.cid)
         if li is None:
@@ -648,9 +808,17 @@ def run(chk, replay=None):
     chk.cov["rule"] = ("corpus + all permutations of the responses to 1..5 outstanding calls (plain, and decorated with duplicates / foreign "
                        "ids / omissions / error replies / corrupt payloads) + random orders for 6..8 calls + all interleavings of the micro-steps "
                        "of 2 helper threads, sampled ones of 3 threads, random thread programs with responses aimed at ids in flight + "
-                       "answers injected inside write(2) + really concurrent bursts + all request kinds on the serving side; non-trivial = "
+                       "answers injected inside write(2) + really concurrent bursts + all request kinds on the serving side + the connection going DOWN "
+                       "at every micro-step boundary of a helper thread and inside random client/server histories (channel owned by RpcServer / by "
+                       "the user); non-trivial = "
                        "the history has >= 2 calls outstanding at once, an out-of-order / ignored / corrupt / error response, a foreign-thread "
                        "micro-step, a burst, or a server reply; distinct by (op-kind sequence, event set, final line)")
+    chk.cov["tier_adds"] = ("quick: permutations of <= 5 calls exhaustively, 600 sampled 3-thread interleavings, 1500/1500/2000/300 random "
+                            "histories per family" if tier == "quick" else
+                            "thorough: ALL permutations of the responses to <= 7 outstanding calls (5913 plain histories), ALL interleavings of "
+                            "2 threads x 1 call, 3 threads x 1 call (1680) and 2 threads x 2 calls (924), 5000 sampled 4-thread interleavings, "
+                            "60000 random orders for 6..8 calls, 60000 random thread programs, 80000 random server histories, 15000 histories "
+                            "with a connection DOWN, bursts of up to 6 threads x 60 concurrent calls (100 repetitions)")
     chk.cov["traces_validated_against_impl"] = len(cases) - len(corr_bad)
     chk.add_obligation("correspondence: extracted C19_Model.step == muduo::net::RpcChannel on every op of every case (events, id_, outstandings_, pending callbacks)", not corr_bad)
     chk.add_obligation("oracle: the property text on the implementation's own trace", not oracle_bad)
@@ -707,6 +875,9 @@ def run(chk, replay=None):
 
         def pred(cc, li, lm, cr, key=key):
             if cr is not None:
+                if key == UAF_KEY:
+                    j = max(0, len([x for x in cr[2] if x.strip()]) - 1)
+                    return j < len(cc.ops) and cc.ops[j].split()[0] == "DONE" and "DOWN" in cc.ops[:j]
                 return key == "crash"
             if li is None:
                 return key == "no-output"
